@@ -318,8 +318,15 @@ fn xml_style_comments_parser(
         Box::new(move |node, source_code| {
             if node.kind() == comment_node_kind {
                 let comment = &source_code[node.byte_range()];
-                let open_idx = comment.find("<!--").expect("open comment tag is expected");
-                let close_idx = comment.rfind("-->").expect("close comment tag is expected");
+                // Degenerate comment nodes (e.g. produced by error recovery) may lack a delimiter
+                // or have overlapping ones; keep such text as it is instead of panicking.
+                let (Some(open_idx), Some(close_idx)) = (comment.find("<!--"), comment.rfind("-->"))
+                else {
+                    return Some(comment.to_string());
+                };
+                if close_idx < open_idx + 4 {
+                    return Some(comment.to_string());
+                }
                 let mut result = String::with_capacity(comment.len());
                 result.push_str(&comment[..open_idx]);
                 // Replace "<!--" with spaces.
@@ -338,13 +345,22 @@ fn xml_style_comments_parser(
 
 fn c_style_multiline_comment_processor(comment: &str) -> String {
     let mut result = String::with_capacity(comment.len());
-    let open_idx = comment.find("/*").expect("expected '/*' in a comment");
-    let close_idx = comment.rfind("*/").expect("expected '*/' in a comment");
+    // Tree-sitter's error recovery can hand over comment nodes without an opening "/*" (e.g. a
+    // stray "*/ //") or without a closing "*/" (an unterminated comment at the end of a file, or
+    // "/*/"): never panic on them. Without an opener the text is kept as it is; without a (separate)
+    // closer everything after the opener is content.
+    let Some(open_idx) = comment.find("/*") else {
+        return comment.to_string();
+    };
+    let close_idx = match comment.rfind("*/") {
+        Some(idx) if idx >= open_idx + 2 => Some(idx),
+        _ => None,
+    };
     // Add everything before the "/*"
     result.push_str(&comment[..open_idx]);
     // Replace "/*" with spaces.
     result.push_str("  ");
-    let content = &comment[open_idx + 2..close_idx];
+    let content = &comment[open_idx + 2..close_idx.unwrap_or(comment.len())];
     for line in content.split_inclusive('\n') {
         let mut decorative_star_found = false;
 
@@ -366,10 +382,12 @@ fn c_style_multiline_comment_processor(comment: &str) -> String {
             result.push_str(line);
         }
     }
-    // Replace "*/" with spaces.
-    result.push_str("  ");
-    // Add everything after the "*/".
-    result.push_str(&comment[close_idx + 2..]);
+    if let Some(close_idx) = close_idx {
+        // Replace "*/" with spaces.
+        result.push_str("  ");
+        // Add everything after the "*/".
+        result.push_str(&comment[close_idx + 2..]);
+    }
 
     result
 }
